@@ -24,7 +24,10 @@ RULE += (". Widened: (c) ~8% of the documents get, at a random subschema and a r
          "slices (PropertyOrder, Required, Types, DependentRequired / DependencyStrings values, of one node or of two nodes) that are windows "
          "of ONE backing array (descriptor member `alias`), with properties PropertyOrder does not list: same bytes as without sharing, "
          "and the Schema value is left as it was; (f) ~12% of the Schema values of (a) with name lists (Required, DependentRequired / "
-         "DependencyStrings values) that list a name twice or three times, adjacently or apart, as Go code that appends names produces them")
+         "DependencyStrings values) that list a name twice or three times, adjacently or apart, as Go code that appends names produces them; "
+         "(g) ~5% of the documents get 1-2 unknown keywords named like the Go side of the Schema struct "
+         "(`-`, `Extra`, `ID`, `Types`, `ItemsArray`, `PropertyOrder`, … : no keyword, no case variant of one) at a random subschema, and the "
+         "Extra maps of the Schema values draw such names too")
 TRUSTED = ["encoding/json's byte-level formatting of strings and numbers (outputs are compared after parsing, order kept)"]
 UNION = {"Type", "Types", "Items", "ItemsArray", "DependencySchemas", "DependencyStrings", "Const", "Properties", "Extra", "Default"}
 
@@ -119,6 +122,31 @@ def case_variant(rng, doc):
     return d
 
 
+# unknown keywords spelled like something of the GO side of Schema: names of fields that have no JSON key of their own (`json:"-"`: Extra,
+# Types, ItemsArray, PropertyOrder, …), the tag text "-" itself, other Go field names whose letters do not fold onto a keyword. None of
+# them is a keyword (nor a case variant of one: that is D4, see case_variant): they belong to Extra and come back from Marshal
+GO_SIDE = ["-", "-", "-", "Extra", "ID", "Types", "ItemsArray", "PropertyOrder", "DependencySchemas", "DependencyStrings", "-,", "--",
+           "Defs", "Vocabulary", "json", "omitempty"]
+
+
+def go_side_unknown(rng, doc):
+    """1-2 unknown keywords named like the Go side of the Schema struct (GO_SIDE) at a random place of a random subschema."""
+    from .c18 import positions, deep_copy
+    d = deep_copy(doc)
+    pos = []
+    positions(d, pos)
+    if not pos:
+        return None
+    o = rng.choice(pos)
+    kw = keyword_table()
+    for _ in range(rng.choice([1, 1, 2])):
+        u = rng.choice(GO_SIDE)
+        if u in kw or any(x.lower() == u.lower() for x in o.keys()) or any(x.lower() == u.lower() for x in kw):
+            continue
+        o.kvs.insert(rng.randint(0, len(o.kvs)), (u, gs.gen_value(rng, 1)))
+    return d
+
+
 def alias_windows(rng, fields):
     """A Schema value whose []string fields are windows of one backing array (names[:1], names[:3], names[2:4] …), over a node with
     properties that PropertyOrder does not list — and the same for a child, a sibling pair, Types."""
@@ -204,6 +232,8 @@ def gen(rng, tier, n):
             r = rng.random()
             if r < 0.13:
                 doc = (spoil if r < 0.09 else case_variant)(rng, doc) or doc
+            elif r < 0.18:
+                doc = go_side_unknown(rng, doc) or doc
             insts = [gs.gen_instance(rng, 2) for _ in range(4)]
             ops.append({"op": "roundtrip-doc", "args": {"doc": doc, "insts": insts},
                         "meta": {"facts": {"order": False, "empty_enum": gs.has_key(doc, ()) and False}, "nt": gs.count_keywords(doc) >= 3, "doc": True}})
